@@ -4,6 +4,8 @@ import (
 	"fmt"
 	"time"
 
+	banktypes "github.com/cosmos/cosmos-sdk/x/bank/types"
+
 	sdk "github.com/cosmos/cosmos-sdk/types"
 
 	beacontypes "github.com/unification-com/mainchain/x/beacon/types"
@@ -175,4 +177,45 @@ func c13Crafted(c *fw.Ctx, e *Env, g *Gen) {
 			}
 		}
 	}
+}
+
+// c13OddReceivers: streams towards receivers whose addresses are not 20 bytes long cannot be claimed
+// by anybody (nobody holds a key for such an address) - unless the binding between the receiver
+// field and the required signature is lost. Every lab account tries: a transaction it signs alone,
+// carrying a self-transfer (so that it has a signer at all) and a claim that names the receiver.
+func c13OddReceivers(c *fw.Ctx, e *Env, g *Gen) {
+	if e.Halted != "" {
+		return
+	}
+	oddReceiverStreams(c, e, g, 40)
+	if e.Halted != "" || e.Last == nil {
+		return
+	}
+	e.BeginBlock(7 * time.Second)
+	defer e.EndBlock()
+	for _, st := range e.Last.Streams {
+		if _, ok := g.acctByAddr(st.Receiver); ok {
+			continue
+		}
+		y := g.randAcct()
+		tx := &TxPlan{Spec: lab.TxSpec{Msgs: []sdk.Msg{banktypes.NewMsgSend(y.Addr, y.Addr, sdk.NewCoins(sdk.NewInt64Coin(lab.Denom, 1))),
+			&streamtypes.MsgClaimStream{Receiver: st.Receiver, Sender: st.Sender}}, Signers: []lab.Acct{y}, Gas: 1_500_000},
+			Desc: fmt.Sprintf("claim for a keyless receiver (%d-byte address) signed by a%d alone", len(mustAddr(st.Receiver)), g.idx(y))}
+		before := e.L.SnapshotStores(e.L.Ctx(), lab.StoreNames)
+		resp, ok := e.Deliver(tx)
+		if !ok {
+			continue
+		}
+		after := e.L.SnapshotStores(e.L.Ctx(), lab.StoreNames)
+		c.Count("keyless_receiver_claims", 1)
+		c.Distinct(fmt.Sprintf("StClaim/keyless-receiver/ok=%v", resp.Code == 0))
+		if diffs := lab.DiffSnapshots(before, after); len(diffs) > 0 {
+			c.Violate("wrong-key-changed-state", "StClaim/keyless-receiver", "%s: code %d; state changed: %s", tx.Desc, resp.Code, diffs[0].String())
+		}
+	}
+}
+
+func mustAddr(s string) sdk.AccAddress {
+	a, _ := sdk.AccAddressFromBech32(s)
+	return a
 }
